@@ -56,7 +56,7 @@ def generate_code(
     code_integrals = [
         integral_generator(integral_ir, domain, options)
         for integral_ir in ir.integrals
-        for domain in set(i[0] for i in integral_ir.expression.integrand.keys())
+        for domain in dict.fromkeys(i[0] for i in integral_ir.expression.integrand.keys())
     ]
     code_forms = [form_generator(form_ir, options) for form_ir in ir.forms]
     code_expressions = [
